@@ -20,6 +20,11 @@ NA = {
 }
 
 CLAIMS = {
+    'C05': dict(
+        category='exploration', technique='seeded operation histories over an object pool with invariants evaluated after every step (claimed on the histories quantifier; no seam or fault exists for this property and the evidence says so)',
+        engine='history-machine',
+        text='Seeded histories (4-40 operations) over a pool of Vec/FrozenVec/Angle/FrozenAngle/Matrix/FrozenMatrix objects whose results are fed back as operands: constructor forms, with_axes, setters, *=, @ and @= over every operand type pair, reflected @ with tuples, transform() blocks, to_angle(), from_basis, from_str, copy/deepcopy/pickle, freeze/thaw, str/format/join, vector arithmetic; start values include tiny negatives, exact multiples of 360 and values within 1e-12..1e-3 of the poles. After every step: every Angle component in [0,360); component and hash snapshots of every frozen object unchanged; copies equal to and independent of their source; text form matches -?digits(.1-6 digits), never -0, and parses back within 5e-7 (angles modulo 360).',
+        note='Python twin only; two open known findings (text "-0" for Vec and FrozenVec) are suppressed by exact fingerprint because a pinned repository test fixes that output.', ref='5/C05'),
     'C18': dict(
         category='exploration', technique='simulated disk as seam monitor: every path reaching the OS seam during a call is recorded; seeded search over path spellings, root spellings, working directories and chain prefixes (weak fit for simulation, labelled as such: no schedule or fault dimension)',
         engine='E2-simfs-monitor',
